@@ -18,7 +18,7 @@ CONFIG = 'crates/anemo/src/config.rs'
 TYPES = P.TYPES
 TIMEOUT = 600
 # vacuity guard: cover points that must be reached: history: an add onto an existing entry; ticks: a dial, a re-dial after 1 failure, after 2
-COVER = {'active_peers_history': [0, 1, 2], 'who_is_dialed': [0, 1], 'background_dialing_ticks': [0, 1, 3, 4], 'dial_races_inbound_connect': [0, 3, 5], 'closed_connection_bookkeeping': [0, 1, 2], 'mutual_dial_through_manager': [0, 1], 'known_peers_change_during_dial': [0, 6, 7]}
+COVER = {'active_peers_history': [0, 1, 2], 'who_is_dialed': [0, 1], 'background_dialing_ticks': [0, 1, 3, 4], 'dial_races_inbound_connect': [0, 3, 5], 'closed_connection_bookkeeping': [0, 1, 2], 'shutdown_after_history': [0, 1, 2], 'mutual_dial_through_manager': [0, 1], 'known_peers_change_during_dial': [0, 6, 7]}
 
 PRELUDE = r'''// GENERATED on every run by /verif/vc from /repo's working tree -- do not edit
 #![allow(dead_code, unused, non_upper_case_globals, non_camel_case_types, static_mut_refs)]
@@ -150,7 +150,17 @@ impl Instant {
 #[derive(Clone, Debug, PartialEq)]
 pub struct Address(pub u8);
 pub struct Endpoint { pub id: PeerId }
-impl Endpoint { pub fn peer_id(&self) -> PeerId { self.id } }
+pub static mut ENDPOINT_CLOSED: bool = false;
+pub static mut REBINDS: u32 = 0;
+pub static mut IDLE_WAITS: u32 = 0;
+pub mod net_standin { pub struct UdpSocket; pub fn bind_ephemeral() -> std::io::Result<UdpSocket> { Ok(UdpSocket) } }
+impl Endpoint {
+    pub fn peer_id(&self) -> PeerId { self.id }
+    // quinn: closing the endpoint closes every connection of it (locally) and refuses new ones
+    pub fn close(&self) { unsafe { ENDPOINT_CLOSED = true; let mut i = 0; while i < 32 { CLOSED[i] = true; i += 1; } } }
+    pub async fn wait_idle(&self, _timeout: std::time::Duration) { unsafe { assert!(ENDPOINT_CLOSED, "waiting for the endpoint to become idle before it was closed: nothing makes it idle"); IDLE_WAITS += 1; } }
+    pub fn rebind(&self, _socket: net_standin::UdpSocket) -> std::io::Result<()> { unsafe { REBINDS += 1; } Ok(()) }
+}
 // crate::connection::Connection: clones share the underlying connection; whether connection `sid` was closed is a static table
 pub static mut CLOSED: [bool; 32] = [false; 32];
 pub static mut REMOTE_CLOSED: [bool; 32] = [false; 32];      // the other side (or the transport) already ended connection `sid`
@@ -170,8 +180,10 @@ impl Connection {
 pub struct Svc;
 impl Svc { pub fn clone(&self) -> Svc { Svc } }
 pub struct InboundRequestHandler { pub sid: usize }
+// every request handler ever created: its connection and the active-peer set it reports to (so that a model JoinSet can let it END)
+thread_local! { pub static HANDLERS: std::cell::RefCell<Vec<(usize, Connection, ActivePeers)>> = std::cell::RefCell::new(Vec::new()); }
 impl InboundRequestHandler {
-    pub fn new(_config: Arc<Config>, connection: Connection, _service: Svc, _active_peers: ActivePeers) -> Self { InboundRequestHandler { sid: connection.sid } }
+    pub fn new(_config: Arc<Config>, connection: Connection, _service: Svc, _active_peers: ActivePeers) -> Self { HANDLERS.with(|h| h.borrow_mut().push((connection.sid, connection.clone(), _active_peers.clone()))); InboundRequestHandler { sid: connection.sid } }
     pub fn start(self) -> Task { Task::Handler(self.sid) }
 }
 // what gets spawned: a dial in progress (with the channel on which its result is reported) or a request handler
@@ -182,7 +194,23 @@ impl<T> JoinSet<T> {
     pub fn spawn(&mut self, t: Task) { self.tasks.push(t) }
     pub fn len(&self) -> usize { self.tasks.len() }
     pub async fn shutdown(&mut self) { self.tasks.clear(); }
+    // the next task to end: a request handler ends when its connection does (the REAL tail of InboundRequestHandler::start then runs)
+    pub async fn join_next(&mut self) -> Option<std::result::Result<(), JoinError>> {
+        if self.tasks.is_empty() { return None; }
+        if let Task::Handler(sid) = self.tasks.remove(0) {
+            let found = HANDLERS.with(|h| h.borrow().iter().find(|x| x.0 == sid).map(|x| (x.1.clone(), x.2.clone())));
+            if let Some((conn, ap)) = found {
+                assert!(conn.is_closed(), "waiting for a connection handler whose connection nobody closed: this wait never ends");
+                let reason = if unsafe { REMOTE_CLOSED[sid] } { ConnectionError::ConnectionClosed(()) } else { ConnectionError::LocallyClosed };
+                let mut inflight: JoinSet<()> = JoinSet::new();
+                block_on(inbound_request_handler_start_tail(&ap, &conn, reason, &mut inflight));
+            }
+        }
+        Some(Ok(()))
+    }
 }
+#[derive(Debug)] pub struct JoinError;
+impl Config { pub fn shutdown_idle_timeout(&self) -> std::time::Duration { std::time::Duration::from_millis(1000) } }
 pub struct ConnectionManagerRequest;
 // quinn::ConnectionError (payloads dropped) and a one-poll executor for the async tail of the request handler
 #[derive(Clone, Copy, Debug)]
@@ -220,7 +248,8 @@ impl Chooser {
     pub fn any_bool(&mut self) -> bool { self.below(2) == 1 }
 }
 fn reset_statics() {
-    unsafe { EVENT_LEN = 0; ONESHOT_NEXT = 0; CLOCK_NS = 1_000_000_000_000; let mut i = 0; while i < 32 { EVENT_LOG[i] = None; ONESHOT[i] = None; CLOSED[i] = false; REMOTE_CLOSED[i] = false; ESTABLISHED_NS[i] = 1_000_000_000_000; i += 1; } }
+    HANDLERS.with(|h| h.borrow_mut().clear());
+    unsafe { ENDPOINT_CLOSED = false; REBINDS = 0; IDLE_WAITS = 0; EVENT_LEN = 0; ONESHOT_NEXT = 0; CLOCK_NS = 1_000_000_000_000; let mut i = 0; while i < 32 { EVENT_LOG[i] = None; ONESHOT[i] = None; CLOSED[i] = false; REMOTE_CLOSED[i] = false; ESTABLISHED_NS[i] = 1_000_000_000_000; i += 1; } }
 }
 fn run_all(name: &str, f: fn(&mut Chooser)) {
     let mut path: Vec<(u32, u32)> = Vec::new();
@@ -251,7 +280,7 @@ pub fn main() {
     if args.len() == 4 && args[1] == "--replay" {
         // re-run ONE choice sequence with the panic message visible
         let choices: Vec<(u32, u32)> = args[3].split(',').filter(|s| !s.is_empty()).map(|s| (s.trim().parse().unwrap(), u32::MAX)).collect();
-        let f: fn(&mut Chooser) = match args[2].as_str() { "active_peers_history" => harness::active_peers_history, "mutual_dial_converges" => harness::mutual_dial_converges, "who_is_dialed" => harness::who_is_dialed, "dial_races_inbound_connect" => harness::dial_races_inbound_connect, "closed_connection_bookkeeping" => harness::closed_connection_bookkeeping, "mutual_dial_through_manager" => harness::mutual_dial_through_manager, "known_peers_change_during_dial" => harness::known_peers_change_during_dial, _ => harness::background_dialing_ticks };
+        let f: fn(&mut Chooser) = match args[2].as_str() { "active_peers_history" => harness::active_peers_history, "mutual_dial_converges" => harness::mutual_dial_converges, "who_is_dialed" => harness::who_is_dialed, "dial_races_inbound_connect" => harness::dial_races_inbound_connect, "closed_connection_bookkeeping" => harness::closed_connection_bookkeeping, "shutdown_after_history" => harness::shutdown_after_history, "mutual_dial_through_manager" => harness::mutual_dial_through_manager, "known_peers_change_during_dial" => harness::known_peers_change_during_dial, _ => harness::background_dialing_ticks };
         reset_statics();
         let mut ch = Chooser { path: choices, pos: 0 };
         f(&mut ch);
@@ -265,6 +294,7 @@ pub fn main() {
     run_all("background_dialing_ticks", harness::background_dialing_ticks);
     run_all("dial_races_inbound_connect", harness::dial_races_inbound_connect);
     run_all("closed_connection_bookkeeping", harness::closed_connection_bookkeeping);
+    run_all("shutdown_after_history", harness::shutdown_after_history);
     run_all("mutual_dial_through_manager", harness::mutual_dial_through_manager);
     run_all("known_peers_change_during_dial", harness::known_peers_change_during_dial);
 }
@@ -466,6 +496,40 @@ pub mod harness {
             step += 1;
         }
     }
+    pub fn shutdown_after_history(ch: &mut Chooser) { // @EOBL [C08,C04] @BOUNDED the real ConnectionManager::shutdown after every history of 3 operations (register one of three connections -- two of peer 1, one of peer 2 -- through add_peer, explicit disconnect of peer 1, exit of a running handler), each connection possibly ALREADY ended by the remote side: shutdown closes the endpoint before it waits for anything, never waits for a handler whose connection nobody closed, never panics (its own assertion that no peer is left holds), and afterwards the listing is empty, every registered connection is closed, the event log replays to the empty listing (a LostPeer for every peer that was listed), the endpoint was waited idle and the socket was swapped out
+        let config = Arc::new(Config { max_concurrent_outstanding_connecting_connections: Some(100), connection_backoff_ms: Some(10_000), max_connection_backoff_ms: Some(60_000), max_concurrent_connections: None });
+        let mut cm = ConnectionManager {
+            config, endpoint: Arc::new(Endpoint { id: ME }), mailbox: mpsc::Receiver { _t: std::marker::PhantomData },
+            pending_connections: JoinSet::new(), connection_handlers: JoinSet::new(), pending_dials: HashMap::default(), dial_backoff_states: HashMap::default(),
+            active_peers: ActivePeers::new(8), known_peers: KnownPeers::new(), service: Svc,
+        };
+        let conns = [conn(20, P1, any_origin(ch)), conn(21, P1, any_origin(ch)), conn(22, P2, any_origin(ch))];
+        unsafe { REMOTE_CLOSED[20] = ch.any_bool(); REMOTE_CLOSED[22] = ch.any_bool(); }
+        let mut added = [false; 3];
+        let mut step = 0;
+        while step < 3 {
+            let op = ch.below(5);
+            if op < 3 { let k = op as usize; if !added[k] { added[k] = true; cm.add_peer(conns[k].clone()); } }
+            else if op == 3 { cm.active_peers.remove(&P1, DisconnectReason::Requested); }
+            else if !cm.connection_handlers.tasks.is_empty() {
+                // a running handler whose connection has ended exits on its own
+                let mut idx = None; let mut t = 0;
+                while t < cm.connection_handlers.tasks.len() { if let Task::Handler(sid) = &cm.connection_handlers.tasks[t] { if conns[*sid - 20].is_closed() { idx = Some(t); } } t += 1; }
+                if let Some(t) = idx { if let Task::Handler(sid) = cm.connection_handlers.tasks.remove(t) { let mut inflight: JoinSet<()> = JoinSet::new(); let r = if unsafe { REMOTE_CLOSED[sid] } { ConnectionError::ConnectionClosed(()) } else { ConnectionError::LocallyClosed }; block_on(inbound_request_handler_start_tail(&cm.active_peers, &conns[sid - 20], r, &mut inflight)); cover(0); } }
+            }
+            step += 1;
+        }
+        let ap = cm.active_peers.clone();
+        let listed_before = ap.0.cell.borrow().connections.len();
+        if listed_before > 0 { cover(1); }
+        if listed_before > 1 { cover(2); }
+        block_on(cm.shutdown());
+        assert!(unsafe { ENDPOINT_CLOSED }, "shutdown did not close the endpoint");
+        assert!(ap.0.cell.borrow().connections.is_empty(), "peers are still listed after shutdown");
+        let mut k = 0; while k < 3 { if added[k] { assert!(is_closed(conns[k].sid), "a registered connection was not closed by shutdown"); } k += 1; }
+        assert!(replay(event_len()) == Some((false, false)), "the event log does not replay to the empty listing after shutdown (a listed peer got no LostPeer, or one got two)");
+        assert!(unsafe { IDLE_WAITS } >= 1 && unsafe { REBINDS } >= 1, "shutdown did not wait for the endpoint to be idle, or did not swap the socket out");
+    }
     pub fn dial_races_inbound_connect(ch: &mut Chooser) { // @EOBL [C13,C06] @BOUNDED every run of 3 connectivity checks over 2 High-affinity peers (one address each, no cap) in which a peer that is being dialed may itself connect to us before that dial completes, the dial then failing, succeeding or staying in flight: the connection manager never panics (in particular every dial it started is answered to whoever waits for it), never dials a connected peer, and the back-off / rotation / one-dial-per-peer rules still hold
         dialing_run(ch, 100, [P1, P2], [PeerAffinity::High, PeerAffinity::High], [1, 1], false, 3, true, false, None, false);
     }
@@ -621,6 +685,8 @@ def build(ctx):
     t += 'impl ConnectionManager {\n'
     for f in ('add_peer', 'handle_connecting_result', 'handle_connectivity_check', 'dial_peer'):
         t += C.fn(CM, 'impl ConnectionManager :: fn ' + f, 'ConnectionManager::' + f, ['C13', 'C03'], probe=False, rewrites=rw)
+    t += C.fn(CM, 'impl ConnectionManager :: fn shutdown', 'ConnectionManager::shutdown', ['C08'], probe=False, optional=True,
+              rewrites=list(rw) + [dict(rule='X5', pattern='std::net::UdpSocket::bind((std::net::Ipv4Addr::LOCALHOST, 0))', repl='net_standin::bind_ephemeral()', optional=True)])
     t += '}\n'
     t += 'impl DisconnectReason {\n'
     t += C.fn(TYPES, 'impl DisconnectReason :: fn from_quinn_error', 'DisconnectReason::from_quinn_error', ['C09'], probe=False)
